@@ -125,6 +125,12 @@ def reorderLog (p : Node) (child before : Bytes) : List Instr :=
 /-- the index lists existing children only, each at most once -/
 def IdxInv (n : Node) : Prop := n.index.Nodup ∧ ∀ c ∈ n.index, (findKid c n.kids).isSome
 
+/-- sibling names are pairwise different (the children live in a `Hashtable` keyed by name) -/
+def KidsDistinct (n : Node) : Prop := (n.kids.map Node.name).Nodup
+
+/-- the per-node invariant: sound index, distinct child names -/
+def NodeInv (n : Node) : Prop := IdxInv n ∧ KidsDistinct n
+
 /-- `P` holds at a node and everywhere below it -/
 inductive AllNodes (P : Node → Prop) : Node → Prop
   | mk (n : Node) : P n → (∀ k ∈ n.kids, AllNodes P k) → AllNodes P n
@@ -161,7 +167,9 @@ def IdxOp.run (parent : List Bytes) (sv : Server) : IdxOp → Server
 def IdxOp.log (parent : List Bytes) (sv : Server) : IdxOp → List Instr
   | .insert _ _ before name _ =>
     match getNode sv parent with
-    | some p => [.ins (insertPos p.index before) (ordPair p name).1]
+    | some p =>
+      -- `optInsertBefore == "!Rmv"`: the child is created but not indexed, nothing is emitted
+      if before = removeFromIndexName then [] else [.ins (insertPos p.index before) (ordPair p name).1]
     | none => []
   | .reorder child before =>
     match getNode sv parent with
@@ -184,11 +192,13 @@ def runOps (parent : List Bytes) : Server → List IdxOp → Server × List Byte
     let (sv', l) := runOps parent (op.run parent sv) r
     (sv', (op.log parent sv).map Instr.render ++ l)
 
-/-- what an operation needs for the invariant to survive: the name `InsertOrderedChild` uses (the given one, or
+/-- what an operation needs for the invariant to survive: unless it does not index at all (`before = "!Rmv"`),
+    the name `InsertOrderedChild` uses (the given one, or
     the generated `I<n>`, which is always unused: `ordPair_fresh`) is not already an indexed child;
     `ReorderChild` is called for an existing child (the REORDERDATA handler looks it up first) -/
 def IdxOp.ok (p : Node) : IdxOp → Prop
-  | .insert _ _ _ name _ => findKid (ordPair p name).1 p.kids = none ∨ (ordPair p name).1 ∉ p.index
+  | .insert _ _ before name _ =>
+    before = removeFromIndexName ∨ findKid (ordPair p name).1 p.kids = none ∨ (ordPair p name).1 ∉ p.index
   | .reorder child before => before = removeFromIndexName ∨ (findKid child p.kids).isSome
   | _ => True
 
